@@ -52,7 +52,7 @@ def main():
     for sid in ids:
         sd = os.path.join(base, sid)
         meta = json.load(open(os.path.join(sd, "meta.json")))
-        prop = meta["property"]
+        prop = meta.get("checked_by", meta["property"])      # (a change delivered for one property may break another one's statement instead)
         res = {"property": prop, "at": time.strftime("%Y-%m-%d %H:%M:%S"), "repo_head": sh(["git", "-C", REPO, "rev-parse", "--short", "HEAD"]).stdout.strip()}
         d = make_copy()
         try:
@@ -100,7 +100,7 @@ def main():
         m = json.load(open(os.path.join(sd, "meta.json")))
         r = json.load(open(os.path.join(sd, "result.json")))
         lines.append("| %s | %s | %s | %s | %s | %s / %s | **%s** | %s |" % (
-            sid, m["property"], m.get("summary", "").replace("|", "/"), m.get("needs", "").replace("|", "/"),
+            sid, m["property"] + (" (judged by %s)" % m["checked_by"] if m.get("checked_by") else ""), m.get("summary", "").replace("|", "/"), m.get("needs", "").replace("|", "/"),
             "passes" if r.get("baseline_passes") else "FAILS", r.get("demo_on_unchanged"), r.get("demo_with_change"),
             "caught" if r.get("caught") else ("not caught - " + m["not_pursued"] if m.get("not_pursued") else "MISSED"),
             "; ".join((r.get("check") or {}).get("keys", [])[:3]).replace("|", "/")))
